@@ -551,7 +551,8 @@ def gate_stream(env, progs, n):
     if not ok:
         return {"gate_cases": 0, "gate_note": "naija binary did not build"}, []
     rng = env.rng
-    marker = 'shout("C07MARK")\n'
+    # the printed marker must not occur in the source text: diagnostics echo source lines to stdout
+    marker = 'shout("C07" add "MARK")\n'
     loops = lambda b: "jasi" in b
     bodies = [b for b in gen_token_mutations(rng, progs, n // 2) if not loops(b)] + [rng.choice(progs) for _ in range(n // 4)] + \
         ["make x get y\n", "comot\n", "make x get 1\nmake x get 2\n", "return 1\n", "shout(1 add \"a\")\n", "f()\n",
